@@ -65,6 +65,8 @@ type leafInterp struct {
 	problems      []string
 	imprecise     bool
 	impreciseKeys map[string]bool
+	problemKeys   map[string][]string
+	bufF          *types.Var
 }
 
 func (li *leafInterp) problem(format string, args ...any) {
@@ -349,6 +351,13 @@ func (li *leafInterp) exec(st *langState, s ast.Stmt, fd *ast.FuncDecl) []*langS
 			}
 			return []*langState{st}
 		}
+		// the append written out: buffer.WriteString(text) on the formatter's own buffer field
+		if rx, mname, _, ok := methodCall(call); ok && mname == "WriteString" && len(call.Args) == 1 && li.bufF != nil && selectorField(li.info, rx) == li.bufF.Origin() {
+			if d, ok := li.evalStr(st, call.Args[0]); ok {
+				st.out = concatDFA(st.out, d)
+			}
+			return []*langState{st}
+		}
 		// a call of another leaf of the formatter: append its summary
 		if cf != nil && recvNamed(cf) != nil && recvNamed(cf).Origin() == li.fmtType.Origin() {
 			if d := li.c.declOf(cf); d != nil {
@@ -525,20 +534,29 @@ func (li *leafInterp) summary(fd *ast.FuncDecl, sign string) *DFA {
 	if li.impreciseKeys == nil {
 		li.impreciseKeys = map[string]bool{}
 	}
+	if li.problemKeys == nil {
+		li.problemKeys = map[string][]string{}
+	}
 	if d, ok := li.memo[key]; ok {
 		if li.impreciseKeys[key] {
 			li.imprecise = true // imprecision is sticky: a caller of an imprecise leaf is imprecise too
 		}
+		// so are the problems met when the summary was computed: whoever uses it has them too
+		li.problems = append(li.problems, li.problemKeys[key]...)
 		return d
 	}
 	li.memo[key] = nil
 	savedImp := li.imprecise
 	li.imprecise = false
+	nProblems := len(li.problems)
 	defer func() {
 		if li.imprecise {
 			li.impreciseKeys[key] = true
 		}
 		li.imprecise = li.imprecise || savedImp
+		if len(li.problems) > nProblems {
+			li.problemKeys[key] = append([]string{}, li.problems[nProblems:]...)
+		}
 	}()
 	st := &langState{strs: map[types.Object]*DFA{}, bools: map[types.Object]bool{}, signs: map[types.Object]string{}, out: dfaFromString(li.al, "")}
 	params := paramObjs(li.info, fd)
@@ -832,7 +850,7 @@ func runC10(c *Ctx, r *Rec) {
 	r.count("alphabet classes", al.n())
 	r.count("token automata", len(tokDFA))
 
-	li := &leafInterp{c: c, info: info, al: al, appendFn: c.funcOf(fr.appendFD), fmtType: fr.n, memo: map[string]*DFA{}}
+	li := &leafInterp{c: c, info: info, al: al, appendFn: c.funcOf(fr.appendFD), fmtType: fr.n, memo: map[string]*DFA{}, bufF: fr.bufF}
 	leaves := leafTokens(c, info, fr)
 	var leafList []*ast.FuncDecl
 	for fd := range leaves {
